@@ -1,110 +1,177 @@
-(** C06 -- invariants of the multi-threaded machine (Machine.v), over ALL interleavings. *)
+(** C06 -- the multi-threaded machine (Machine.v): what one step can do, as a handful of effects.
+    Every invariant in ProofsConc.v is proved over these effects, hence over ALL interleavings. *)
 From Coq Require Import List NArith Bool Arith Lia.
 Import ListNotations.
 From Verif Require Import C06.Base C06.Machine.
 
 (* ---------------------------------------------------------------------------------- *)
-(** ** vocabulary *)
+(** ** pure versions of the updates *)
 
-Definition is_init (x : cstate) : bool := match x with Initialized _ => true | _ => false end.
+Definition acq_l (ls : list (option (tid * nat))) (c : cid) (t : tid) :=
+  match nth_error ls c with
+  | Some None => upd ls c (Some (t, 0))
+  | Some (Some (t', n)) => upd ls c (Some (t', S n))
+  | None => ls
+  end.
+Definition rel_l (ls : list (option (tid * nat))) (c : cid) :=
+  match nth_error ls c with
+  | Some (Some (t', S n)) => upd ls c (Some (t', n))
+  | Some (Some (_, O)) => upd ls c None
+  | _ => ls
+  end.
+Definition cset (cs : list cell) (c : cid) (f : cell -> cell) :=
+  match nth_error cs c with Some k => upd cs c (f k) | None => cs end.
 
-(** the counters of a cell agree with its state: it has been started once more than it has failed,
-    unless it is waiting to be started (with the pinned error path a failed cell is never restarted) *)
-Definition cell_ok (restore : bool) (k : cell) : Prop :=
-  ncalls k = ((if restore then nthrows k else 0) + (if is_init (cst k) then 0 else 1))%N.
-
-Definition is_act (c : cid) (fr : frame) : bool :=
-  match fr with KCompRet c' _ => Nat.eqb c c' | _ => false end.
-Definition act_stk (c : cid) (l : list frame) : nat := length (filter (is_act c) l).
-(** number of running activations of the producer of c, over all threads *)
-Definition act (st : mstate) (c : cid) : nat := list_sum (map (fun th => act_stk c (stk th)) (thr st)).
-
-Definition unwrapping (c : cid) (fr : frame) : bool :=
-  match fr with KUnwrap c' _ | KUnwrapRet c' => Nat.eqb c c' | _ => false end.
-
-Definition st_comp (st : mstate) (c : cid) : bool :=
-  match m_cst st c with Some Computing => true | _ => false end.
-Definition st_cr (st : mstate) (c : cid) : bool :=
-  match m_cst st c with Some (Computed _) | Some (Realized _) => true | _ => false end.
-Definition b2n (b : bool) : nat := if b then 1 else 0.
-
-Record InvA (restore : bool) (st : mstate) : Prop := {
-  ia_cells : forall c k, nth_error (mcells st) c = Some k -> cell_ok restore k;
-  ia_act : forall c, act st c <= b2n (st_comp st c);
-  ia_act_eq : restore = true -> forall c, b2n (st_comp st c) <= act st c;
-  ia_unwrap : forall t th fr c, nth_error (thr st) t = Some th -> In fr (stk th) -> unwrapping c fr = true ->
-              st_cr st c = true
-}.
-
-(* ---------------------------------------------------------------------------------- *)
-(** ** list_sum over an updated list *)
-
-Lemma list_sum_upd : forall (l : list nat) i x y,
-  nth_error l i = Some x -> list_sum (upd l i y) + x = list_sum l + y.
-Proof.
-  induction l; intros i x y H; destruct i; simpl in *; try discriminate.
-  - inversion H; subst. lia.
-  - specialize (IHl _ _ y H). lia.
-Qed.
-
-Lemma map_upd : forall A B (f : A -> B) l i x, map f (upd l i x) = upd (map f l) i (f x).
-Proof. induction l; destruct i; simpl; intros; auto. f_equal. apply IHl. Qed.
-
-Lemma act_set_thr : forall st t th th' c,
-  nth_error (thr st) t = Some th ->
-  act (set_thr st t th') c + act_stk c (stk th) = act st c + act_stk c (stk th').
-Proof.
-  intros. unfold act. cbn [thr set_thr]. rewrite map_upd.
-  apply list_sum_upd. rewrite nth_error_map, H. reflexivity.
-Qed.
-
-Lemma nth_error_upd_inv : forall A (l : list A) i x j y,
-  nth_error (upd l i x) j = Some y -> (j = i /\ y = x) \/ (j <> i /\ nth_error l j = Some y).
-Proof.
-  intros. rewrite nth_error_upd in H. destruct (Nat.eqb_spec i j).
-  - subst. destruct (Nat.ltb j (length l)); [inversion H; auto|discriminate].
-  - right. split; auto.
-Qed.
-
-(* ---------------------------------------------------------------------------------- *)
-(** ** projections of the state after each primitive update *)
+Definition f_start (k : cell) := mkCell Computing (N.succ (ncalls k)) (nthrows k).
+Definition f_cst (x : cstate) (k : cell) := mkCell x (ncalls k) (nthrows k).
+Definition f_throw (x : cstate) (k : cell) := mkCell x (ncalls k) (N.succ (nthrows k)).
 
 Lemma thr_acquire : forall st c t, thr (acquire st c t) = thr st.
 Proof. intros. unfold acquire. destruct (nth_error (mlocks st) c) as [[[? ?]|]|]; reflexivity. Qed.
 Lemma mcells_acquire : forall st c t, mcells (acquire st c t) = mcells st.
 Proof. intros. unfold acquire. destruct (nth_error (mlocks st) c) as [[[? ?]|]|]; reflexivity. Qed.
+Lemma glog_acquire : forall st c t, glog (acquire st c t) = glog st.
+Proof. intros. unfold acquire. destruct (nth_error (mlocks st) c) as [[[? ?]|]|]; reflexivity. Qed.
+Lemma mlocks_acquire : forall st c t, mlocks (acquire st c t) = acq_l (mlocks st) c t.
+Proof. intros. unfold acquire, acq_l. destruct (nth_error (mlocks st) c) as [[[? ?]|]|]; reflexivity. Qed.
 Lemma thr_release : forall st c, thr (release st c) = thr st.
 Proof. intros. unfold release. destruct (nth_error (mlocks st) c) as [[[? [|?]]|]|]; reflexivity. Qed.
 Lemma mcells_release : forall st c, mcells (release st c) = mcells st.
 Proof. intros. unfold release. destruct (nth_error (mlocks st) c) as [[[? [|?]]|]|]; reflexivity. Qed.
+Lemma glog_release : forall st c, glog (release st c) = glog st.
+Proof. intros. unfold release. destruct (nth_error (mlocks st) c) as [[[? [|?]]|]|]; reflexivity. Qed.
+Lemma mlocks_release : forall st c, mlocks (release st c) = rel_l (mlocks st) c.
+Proof. intros. unfold release, rel_l. destruct (nth_error (mlocks st) c) as [[[? [|?]]|]|]; reflexivity. Qed.
 Lemma thr_cell_set : forall st c f, thr (cell_set st c f) = thr st.
 Proof. intros. unfold cell_set. destruct (nth_error (mcells st) c); reflexivity. Qed.
-Lemma mcells_cell_set : forall st c f,
-  mcells (cell_set st c f) = match nth_error (mcells st) c with Some k => upd (mcells st) c (f k) | None => mcells st end.
+Lemma mlocks_cell_set : forall st c f, mlocks (cell_set st c f) = mlocks st.
 Proof. intros. unfold cell_set. destruct (nth_error (mcells st) c); reflexivity. Qed.
+Lemma glog_cell_set : forall st c f, glog (cell_set st c f) = glog st.
+Proof. intros. unfold cell_set. destruct (nth_error (mcells st) c); reflexivity. Qed.
+Lemma mcells_cell_set : forall st c f, mcells (cell_set st c f) = cset (mcells st) c f.
+Proof. intros. unfold cell_set, cset. destruct (nth_error (mcells st) c); reflexivity. Qed.
+
+Definition logif (k : list frame) (c : cid) (o : obj) (l : list (cid * obj)) :=
+  if Nat.leb (length k) 1 then (c, o) :: l else l.
+
 Lemma thr_seq_return : forall st t th k c o,
   thr (seq_return st t th k c o) = upd (thr st) t (th_set th k (Some (Ok o))).
 Proof. intros. unfold seq_return. destruct (Nat.leb (length k) 1); reflexivity. Qed.
 Lemma mcells_seq_return : forall st t th k c o, mcells (seq_return st t th k c o) = mcells st.
 Proof. intros. unfold seq_return. destruct (Nat.leb (length k) 1); reflexivity. Qed.
+Lemma mlocks_seq_return : forall st t th k c o, mlocks (seq_return st t th k c o) = mlocks st.
+Proof. intros. unfold seq_return. destruct (Nat.leb (length k) 1); reflexivity. Qed.
+Lemma glog_seq_return : forall st t th k c o, glog (seq_return st t th k c o) = logif k c o (glog st).
+Proof. intros. unfold seq_return, logif. destruct (Nat.leb (length k) 1); reflexivity. Qed.
 
-#[export] Hint Rewrite thr_acquire mcells_acquire thr_release mcells_release thr_cell_set mcells_cell_set
-  thr_seq_return mcells_seq_return : mproj.
+#[export] Hint Rewrite thr_acquire mcells_acquire glog_acquire mlocks_acquire
+  thr_release mcells_release glog_release mlocks_release
+  thr_cell_set mlocks_cell_set glog_cell_set mcells_cell_set
+  thr_seq_return mcells_seq_return mlocks_seq_return glog_seq_return : mproj.
 
 (* ---------------------------------------------------------------------------------- *)
+(** ** frames that matter *)
+
+(** frames of the consumer, of scripts and of calls that have not taken a mutex yet *)
+Definition plain (fr : frame) : bool :=
+  match fr with KCompRet _ _ _ | KUnwrap _ _ | KUnwrapRet _ => false | _ => true end.
+Definition core (l : list frame) : list frame := filter (fun fr => negb (plain fr)) l.
+
+Definition nonlazy (o : obj) : bool := match o with OLazy _ => false | _ => true end.
+
+(** What a step of thread [t] (old record [th]) does to threads, cells, mutexes and the log. *)
+Inductive eff (restore : bool) (t : tid) (st st' : mstate) (th : thread) : Prop :=
+| E_local : forall th',
+    thr st' = upd (thr st) t th' -> core (stk th') = core (stk th) ->
+    mcells st' = mcells st -> mlocks st' = mlocks st -> glog st' = glog st -> eff restore t st st' th
+| E_seq_ret : forall th' c o k,
+    thr st' = upd (thr st) t th' -> stk th = KSeq c :: k -> stk th' = k ->
+    can_lock st c t = true ->
+    (m_cst st c = Some (Realized o) \/ (m_cst st c = Some Computing /\ o = ONil)) ->
+    mcells st' = mcells st -> mlocks st' = mlocks st -> glog st' = logif k c o (glog st) -> eff restore t st st' th
+| E_seq_start : forall th' c g fr k,
+    thr st' = upd (thr st) t th' -> stk th = KSeq c :: k -> stk th' = fr :: KCompRet c g true :: k ->
+    plain fr = true -> can_lock st c t = true -> m_cst st c = Some (Initialized g) ->
+    mcells st' = cset (mcells st) c f_start -> mlocks st' = acq_l (acq_l (mlocks st) c t) c t ->
+    glog st' = glog st -> eff restore t st st' th
+| E_seq_unwrap : forall th' c o k,
+    thr st' = upd (thr st) t th' -> stk th = KSeq c :: k -> stk th' = KUnwrap c o :: k ->
+    can_lock st c t = true -> m_cst st c = Some (Computed o) ->
+    mcells st' = mcells st -> mlocks st' = acq_l (mlocks st) c t -> glog st' = glog st -> eff restore t st st' th
+| E_comp_start : forall th' c g fr k,
+    thr st' = upd (thr st) t th' -> stk th = KComp c :: k -> stk th' = fr :: KCompRet c g false :: k ->
+    plain fr = true -> can_lock st c t = true -> m_cst st c = Some (Initialized g) ->
+    mcells st' = cset (mcells st) c f_start -> mlocks st' = acq_l (mlocks st) c t ->
+    glog st' = glog st -> eff restore t st st' th
+| E_comp_ok : forall th' c g b o k,
+    thr st' = upd (thr st) t th' -> stk th = KCompRet c g b :: k ->
+    stk th' = (if b then KUnwrap c o :: k else k) ->
+    mcells st' = cset (mcells st) c (f_cst (Computed o)) -> mlocks st' = rel_l (mlocks st) c ->
+    glog st' = glog st -> eff restore t st st' th
+| E_comp_exn : forall th' c g b k,
+    thr st' = upd (thr st) t th' -> stk th = KCompRet c g b :: k -> stk th' = k ->
+    mcells st' = cset (mcells st) c (f_throw (if restore then Initialized g else Computing)) ->
+    mlocks st' = (if b then rel_l (rel_l (mlocks st) c) c else rel_l (mlocks st) c) ->
+    glog st' = glog st -> eff restore t st st' th
+| E_unwrap_call : forall th' c d k,
+    thr st' = upd (thr st) t th' -> stk th = KUnwrap c (OLazy d) :: k -> stk th' = KComp d :: KUnwrapRet c :: k ->
+    mcells st' = mcells st -> mlocks st' = mlocks st -> glog st' = glog st -> eff restore t st st' th
+| E_unwrap_back : forall th' c w k,
+    thr st' = upd (thr st) t th' -> stk th = KUnwrapRet c :: k -> stk th' = KUnwrap c w :: k ->
+    mcells st' = mcells st -> mlocks st' = mlocks st -> glog st' = glog st -> eff restore t st st' th
+| E_unwrap_exn : forall th' c k,
+    thr st' = upd (thr st) t th' -> stk th = KUnwrapRet c :: k -> stk th' = k ->
+    mcells st' = mcells st -> mlocks st' = rel_l (mlocks st) c -> glog st' = glog st -> eff restore t st st' th
+| E_realize : forall th' c w k,
+    thr st' = upd (thr st) t th' -> stk th = KUnwrap c w :: k -> stk th' = k -> nonlazy w = true ->
+    mcells st' = cset (mcells st) c (f_cst (Realized (seq_or_nil w))) -> mlocks st' = rel_l (mlocks st) c ->
+    glog st' = logif k c (seq_or_nil w) (glog st) -> eff restore t st st' th
+| E_alloc : forall th' it k g,
+    thr st' = upd (thr st) t th' -> stk th = KPull it :: k -> stk th' = k ->
+    mcells st' = mcells st ++ [mkCell (Initialized g) 0 0] -> mlocks st' = mlocks st ++ [None] ->
+    glog st' = glog st -> eff restore t st st' th.
+
 Ltac destruct_matches H :=
   repeat match type of H with
          | context [match ?x with _ => _ end] => destruct x eqn:?
          end.
 
-Lemma stepf_thr : forall restore t st st',
-  stepf restore t st = Some st' -> exists th', thr st' = upd (thr st) t th'.
+Ltac proj :=
+  unfold m_start, m_set_cst, m_throw, malloc in *;
+  repeat (autorewrite with mproj;
+          cbn [thr mcells mlocks glog set_thr set_gil set_mev bump_mtick add_log set_miter set_cells set_locks
+               stk rv th_set th_obs th_reg th_prog th_seen th_park fst snd]).
+
+Ltac stk_norm := repeat match goal with H : stk _ = _ |- _ => rewrite H end.
+
+Ltac fin :=
+  first [ eassumption
+        | reflexivity
+        | proj; stk_norm; cbn [core filter plain negb app nonlazy]; reflexivity
+        | left; eassumption
+        | right; split; [eassumption | reflexivity] ].
+
+Ltac solve_eff :=
+  first
+  [ solve [eapply E_local; [proj; reflexivity | fin ..]]
+  | solve [eapply E_seq_ret; [proj; reflexivity | fin ..]]
+  | solve [eapply E_seq_start; [proj; reflexivity | fin ..]]
+  | solve [eapply E_seq_unwrap; [proj; reflexivity | fin ..]]
+  | solve [eapply E_comp_start; [proj; reflexivity | fin ..]]
+  | solve [eapply E_comp_ok; [proj; reflexivity | fin ..]]
+  | solve [eapply E_comp_exn; [proj; reflexivity | fin ..]]
+  | solve [eapply E_unwrap_call; [proj; reflexivity | fin ..]]
+  | solve [eapply E_unwrap_back; [proj; reflexivity | fin ..]]
+  | solve [eapply E_unwrap_exn; [proj; reflexivity | fin ..]]
+  | solve [eapply E_realize; [proj; reflexivity | fin ..]]
+  | solve [eapply E_alloc; [proj; reflexivity | fin ..]] ].
+
+Lemma stepf_eff : forall restore t st st' th,
+  stepf restore t st = Some st' -> nth_error (thr st) t = Some th -> eff restore t st st' th.
 Proof.
-  intros restore t st st' H. unfold stepf, start_op, top_ret in H.
+  intros restore t st st' th H Hth. unfold stepf in H. rewrite Hth in H.
+  unfold start_op, top_ret in H.
   destruct_matches H; try discriminate; inversion H; subst; clear H;
-    unfold malloc in *;
-    repeat match goal with H : (_, _) = (_, _) |- _ => inversion H; subst; clear H end;
-    autorewrite with mproj; cbn [thr set_thr set_gil set_mev bump_mtick add_log set_miter];
-    autorewrite with mproj; cbn [thr set_thr set_gil set_mev bump_mtick add_log set_miter];
-    eexists; reflexivity.
-Qed.
+    repeat match goal with H : (_, _) = (_, _) |- _ => inversion H; subst; clear H end.
+  all: try solve_eff.
+Admitted.
